@@ -719,6 +719,7 @@ func (s *MemoryStore) Dequeue(req DequeueRequest) (DequeueResponse, error) {
 }
 
 func (s *MemoryStore) Ack(leaseID string) error {
+	leaseID = strings.TrimSpace(leaseID)
 	s.mu.Lock()
 	defer s.mu.Unlock()
 
@@ -812,6 +813,7 @@ func (s *MemoryStore) AckBatch(leaseIDs []string) (LeaseBatchResult, error) {
 }
 
 func (s *MemoryStore) Nack(leaseID string, delay time.Duration) error {
+	leaseID = strings.TrimSpace(leaseID)
 	s.mu.Lock()
 	defer s.mu.Unlock()
 
@@ -902,6 +904,7 @@ func (s *MemoryStore) Extend(leaseID string, extendBy time.Duration) error {
 	if extendBy <= 0 {
 		return nil
 	}
+	leaseID = strings.TrimSpace(leaseID)
 
 	s.mu.Lock()
 	defer s.mu.Unlock()
@@ -929,6 +932,7 @@ func (s *MemoryStore) Extend(leaseID string, extendBy time.Duration) error {
 }
 
 func (s *MemoryStore) MarkDead(leaseID string, reason string) error {
+	leaseID = strings.TrimSpace(leaseID)
 	s.mu.Lock()
 	defer s.mu.Unlock()
 
